@@ -307,10 +307,12 @@ impl MultiState {
             reap_indices.push(index);
         }
 
-        // If this draw is due to a `println`, then we need to erase all the zombie lines.
+        // If this draw is due to a `println` (on the `MultiProgress` or on one of its bars, whose
+        // lines are kept in `orphan_lines`), then we need to erase all the zombie lines.
         // This is because `println` is supposed to appear above all other elements in the
         // `MultiProgress`.
-        if extra_lines.is_some() {
+        let prints_text = extra_lines.is_some() || !self.orphan_lines.is_empty();
+        if prints_text {
             self.draw_target
                 .adjust_last_line_count(LineAdjust::Clear(self.zombie_lines_count));
             self.zombie_lines_count = VisualLines::default();
@@ -351,7 +353,7 @@ impl MultiState {
         // so they aren't cleared on next draw. Only now do they count as zombie lines on the
         // screen: the draw was not refused by the rate limiter, and they are no longer part of
         // the lines the `DrawTarget` clears by itself.
-        if extra_lines.is_none() {
+        if !prints_text {
             self.zombie_lines_count += adjust;
             self.draw_target
                 .adjust_last_line_count(LineAdjust::Keep(adjust));
